@@ -125,16 +125,16 @@ func lsDerive(p *lsNode, id int, co drvChainOp) *lsNode {
 }
 
 type lsOp struct {
-	Derive bool    `json:"derive,omitempty"`
-	Parent int     `json:"parent,omitempty"` // node id derived from
-	New    int     `json:"new,omitempty"`    // node id created
+	Derive bool       `json:"derive,omitempty"`
+	Parent int        `json:"parent,omitempty"` // node id derived from
+	New    int        `json:"new,omitempty"`    // node id created
 	Chain  drvChainOp `json:"chain,omitempty"`
 
-	Node  int        `json:"node,omitempty"` // node id logged through
-	Rid   int        `json:"rid,omitempty"`
-	Level int        `json:"level,omitempty"`
-	Via   string     `json:"via,omitempty"` // handle | log | logattrs | logf | named | namedf
-	Pad   int        `json:"pad,omitempty"`
+	Node  int           `json:"node,omitempty"` // node id logged through
+	Rid   int           `json:"rid,omitempty"`
+	Level int           `json:"level,omitempty"`
+	Via   string        `json:"via,omitempty"` // handle | log | logattrs | logf | named | namedf
+	Pad   int           `json:"pad,omitempty"`
 	Attrs []drvAttrSpec `json:"attrs,omitempty"`
 	msg   string
 }
